@@ -21,9 +21,18 @@ This is the model of the code WITH the C05 repairs:
   function type;
 * `UniqueBaseAttributeVariable.parse` (and `TypedAttributeVariable`) honours `is_optional`: an
   optional variable whose first token is not its value reports absence (was: parsed unconditionally),
-  so every attribute variable is parsed optionally exactly when it is optional.
+  so every attribute variable is parsed optionally exactly when it is optional;
+* `OperandsOrResultDirective._set_using_variadic_index` (behind `operands`, `type(operands)`,
+  `type(results)`, `functional-type(operands, results)`) splits the flat list positionally also when
+  the definition stores its segment sizes (`AttrSized…Segments` with one optional/variadic definition;
+  was: `AssertionError` on the attribute-based accessors) — fix_1 of the C05G extension, a `known`
+  finding until it is applied.
 
-Nested optional groups are not modelled (groups contain simple directives only).  No proofs here.
+Nested optional groups are not modelled (groups contain simple directives only).  The aggregate
+directives `operands`, `type(operands)`, `type(results)`, `functional-type(…)` are modelled for
+operation definitions with at most one non-single (optional/variadic) operand resp. result
+definition (`_set_using_variadic_index` through the `UniqueVariadic/SameOptional/Before/After`
+accessors); the `SameVariadic…Size` options are not modelled (`splitByKinds` fails).  No proofs here.
 -/
 namespace Xdsl.DeclFormat
 
@@ -312,6 +321,24 @@ def splitByKinds (ks : List Kind) (xs : List Nat) : Option (List (List Nat)) :=
   else if xs.length < countSingle ks then none
   else if nonSingle = 0 && xs.length ≠ countSingle ks then none
   else splitFlat ks xs (xs.length - countSingle ks)
+
+/-- the cardinality a definition of kind `k` allows (`irdl_build_arg_list`, `verify_variadic_size`) -/
+def fitsK : Kind → List Nat → Bool
+  | .single, xs => xs.length == 1
+  | .opt, xs => decide (xs.length ≤ 1)
+  | .var, _ => true
+
+/-- one segment per definition, each of an allowed cardinality -/
+def fits : List Kind → List (List Nat) → Bool
+  | [], [] => true
+  | k :: ks, s :: ss => fitsK k s && fits ks ss
+  | _, _ => false
+
+def nonSingle (ks : List Kind) : Nat := (ks.filter (· != Kind.single)).length
+
+/-- at most one optional/variadic definition: the flat list determines the segments (what
+`create_operands_directive` / `create_results_directive` demand without a `SameVariadic…Size` option) -/
+def uniqueVar (ks : List Kind) : Bool := decide (nonSingle ks ≤ 1)
 
 def setAll (m : AL Nat (List Nat)) (segs : List (List Nat)) : AL Nat (List Nat) :=
   (List.range segs.length).foldl (fun m i => AL.set m i (segs.getD i [])) m
@@ -692,7 +719,7 @@ def okFollow (d : SDir) (F : List Cls) : Bool :=
   (!commaLike d || !F.contains (.punct ",")) &&
   (!regionLike d || F.all (fun c => !clsBadBrace c))
 
-/-- directives covered by the theorem `decl_roundtrip` (the aggregates are executable only) -/
+/-- the non-aggregate directives (the only ones `wfD` admits inside optional groups) -/
 def inFragment : SDir → Bool
   | .operandsAll => false
   | .operandTysAll => false
@@ -761,10 +788,89 @@ def wfD : List Dir → List Cls → Bool
     wfSeq (f :: r) K' && wfSeq e K' && wfD ds K
 
 
+/-- optional groups contain no aggregate directive (`operands`, `type(operands)`, `type(results)`,
+`functional-type`); at top level every directive is covered by `decl_roundtrip`.  Implied by `wfD`
+(`okFirst`/`okInGroup` refuse the aggregates). -/
 def fragD : List Dir → Bool
   | [] => true
-  | .s d :: ds => inFragment d && fragD ds
+  | .s _ :: ds => fragD ds
   | .group _ f r e :: ds => inFragment f && r.all inFragment && e.all inFragment && fragD ds
+
+/-! ## the binding checks of the format compiler (`FormatParser.parse_format`) -/
+
+inductive Fam | operands | operandTys | resultTys | regions | succs
+  deriving DecidableEq, Repr
+
+/-- how often a typeable directive binds the type slot `(fam, i)` -/
+def tyRefBindN (fam : Fam) (i : Nat) : TyRef → Nat
+  | .operands => if fam = .operandTys then 1 else 0
+  | .results => if fam = .resultTys then 1 else 0
+  | .operand j _ => if fam = .operandTys ∧ j = i then 1 else 0
+  | .result j _ => if fam = .resultTys ∧ j = i then 1 else 0
+
+/-- how often a directive binds slot `(fam, i)` (`seen_operands[i] = True`, …; `operands` and
+`results` bind every slot of their family) -/
+def bindN (fam : Fam) (i : Nat) : SDir → Nat
+  | .operand j _ => if fam = .operands ∧ j = i then 1 else 0
+  | .operandTy j _ => if fam = .operandTys ∧ j = i then 1 else 0
+  | .resultTy j _ => if fam = .resultTys ∧ j = i then 1 else 0
+  | .region j _ => if fam = .regions ∧ j = i then 1 else 0
+  | .succ j _ => if fam = .succs ∧ j = i then 1 else 0
+  | .operandsAll => if fam = .operands then 1 else 0
+  | .operandTysAll => if fam = .operandTys then 1 else 0
+  | .resultTysAll => if fam = .resultTys then 1 else 0
+  | .funcTy ins outs => tyRefBindN fam i ins + tyRefBindN fam i outs
+  | _ => 0
+
+/-- all simple directives of a format -/
+def allS : List Dir → List SDir
+  | [] => []
+  | .s d :: ds => d :: allS ds
+  | .group _ f r e :: ds => (f :: r) ++ e ++ allS ds
+
+def bindCount (fam : Fam) (i : Nat) (fmt : List Dir) : Nat :=
+  ((allS fmt).map (bindN fam i)).sum
+
+def okAggTy (D : Defs) : TyRef → Bool
+  | .operands => !D.operandKinds.isEmpty && uniqueVar D.operandKinds
+  | .results => !D.resultKinds.isEmpty && uniqueVar D.resultKinds
+  | .operand _ _ => true
+  | .result _ _ => true
+
+/-- `create_operands_directive` / `create_results_directive`: "'operands' should not be used when
+there are no operands", "'operands' is ambiguous with multiple variadic operands" (the
+`SameVariadic…Size` way out is not modelled) -/
+def okAgg (D : Defs) : SDir → Bool
+  | .operandsAll => !D.operandKinds.isEmpty && uniqueVar D.operandKinds
+  | .operandTysAll => !D.operandKinds.isEmpty && uniqueVar D.operandKinds
+  | .resultTysAll => !D.resultKinds.isEmpty && uniqueVar D.resultKinds
+  | .funcTy ins outs => okAggTy D ins && okAggTy D outs
+  | _ => true
+
+/-- the aggregate directives of a format (top level only: `wfD` admits none inside groups) are used
+where `_set_using_variadic_index` is unambiguous -/
+def wfA (D : Defs) : List Dir → Bool
+  | [] => true
+  | .s d :: ds => okAgg D d && wfA D ds
+  | .group _ _ _ _ :: ds => wfA D ds
+
+/-- the binding checks of the format compiler, relative to the operation definition: every operand,
+region and successor is bound exactly once ("… is already bound", "'operands' cannot be used with other
+operand directives", `verify_operands/_regions/_successors`: "… not found"); every operand / result
+type is bound at most once and is bound or inferable (`verify_operands`, `verify_results`); the
+aggregate directives are used only where they are unambiguous (`okAgg`). -/
+def accD (D : Defs) (fmt : List Dir) : Bool :=
+  (List.range D.operandKinds.length).all (fun i => bindCount .operands i fmt == 1) &&
+  (List.range D.operandKinds.length).all (fun i =>
+    decide (bindCount .operandTys i fmt ≤ 1) &&
+      (bindCount .operandTys i fmt == 1 || (D.operandFixed.getD i none).isSome)) &&
+  (List.range D.resultKinds.length).all (fun i =>
+    decide (bindCount .resultTys i fmt ≤ 1) &&
+      (bindCount .resultTys i fmt == 1 ||
+        ((D.resultFixed.getD i none).isSome && D.resultKinds.getD i Kind.var == Kind.single))) &&
+  (List.range D.regionKinds.length).all (fun i => bindCount .regions i fmt == 1) &&
+  (List.range D.succKinds.length).all (fun i => bindCount .succs i fmt == 1) &&
+  (allS fmt).all (okAgg D)
 
 /-- diagnostic twin of `wfD`: which condition fails first (debugging / evidence only) -/
 def whySeq : List SDir → List Cls → String
@@ -990,6 +1096,8 @@ def lineStep (s : St) (line : String) : St × String :=
      | some K => (s, showBool (wfD s.fmt K))
      | none => bad)
   | ["fragment"] => (s, showBool (fragD s.fmt))
+  | ["acc"] => (s, showBool (accD s.defs s.fmt))
+  | ["wfa"] => (s, showBool (wfA s.defs s.fmt))
   | "why" :: ks =>
     (match ks.mapM parseCls with
      | some K => (s, whyD s.fmt K 0)
